@@ -977,3 +977,143 @@ Proof.
   - vm_compute. reflexivity.
   - vm_compute. reflexivity.
 Qed.
+
+(* ---------- exactly once with net/url as modelled: registries that write </path?escaped query> ---------- *)
+
+Definition vsmap (l : list (str * str)) : query := map (fun kv => (fst kv, VS (snd kv))) l.
+Definition all_vs (q : query) : Prop := Forall (fun kv => exists s, snd kv = VS s) q.
+
+Lemma vsmap_shown q : all_vs q -> vsmap (shown q) = q.
+Proof.
+  induction 1 as [|[k v] q (s & E) _ IH]; [reflexivity|]. simpl in E. subst v.
+  unfold vsmap, shown in *. simpl. now rewrite IH.
+Qed.
+
+Lemma Forall_qdel (P : str * qval -> Prop) k q : Forall P q -> Forall P (qdel k q).
+Proof.
+  induction 1 as [|[k' v] q H _ IH]; simpl; [constructor|].
+  destruct (str_eqb k' k); [exact IH|constructor; assumption].
+Qed.
+
+Definition enc_char (c : N) : bool := esc_char c || (c =? c_eq) || (c =? c_amp).
+
+Lemma enc_pairs_enc_char l : Forall kv_ok l -> forallb enc_char (enc_pairs l) = true.
+Proof.
+  intro H. unfold enc_pairs. apply forallb_join; [reflexivity|].
+  assert (I : forall c, esc_char c = true -> enc_char c = true) by (intros c E; unfold enc_char; now rewrite E).
+  induction H as [|kv l' [Hk Hv] _ IH]; simpl; constructor; [|exact IH].
+  unfold new_param. rewrite forallb_app. cbn [forallb].
+  rewrite (forallb_impl esc_char enc_char _ I (query_escape_chars _ Hk)).
+  rewrite (forallb_impl esc_char enc_char _ I (query_escape_chars _ Hv)).
+  reflexivity.
+Qed.
+
+Lemma query_char_printable c : query_char c = true -> printable c = true.
+Proof. unfold query_char, printable. intro H. apply andb_true_iff in H as [H _]. exact H. Qed.
+
+Section Concrete.
+  Variable sch host : str.
+  Variable hc : N. Variable ht : str.
+  Hypothesis Hhost : host = hc :: ht.
+  Hypothesis Hhostc : forallb host_char host = true.
+  Hypothesis Hhostok : host_ok host = true.
+  (* the listing endpoint *)
+  Variable P0 : str.
+  Variable segs0 : list str.
+  Hypothesis HP0 : clean_path P0 segs0.
+  Hypothesis HP0c : forallb path_char P0 = true.
+  Hypothesis HP0p : forallb printable P0 = true.
+  (* the registry *)
+  Variable L : list item.
+  Variable cap : nat.
+  Variable ds : nat -> decision.
+  Variable trailer : nat -> str.
+  Variable vis : item -> bool.
+  Variable cu : cursor.
+  Variable c : cfg.
+  Hypothesis Hcu : cursor_ok cu.
+  Hypothesis Hcub : match cu with CLast => True | CToken k s => Forall byte_ok k /\ Forall byte_ok s end.
+  Hypothesis Hnames : forall x, In x (map fst L) -> Forall byte_ok x.
+  Hypothesis Hextra_vs : forall i, all_vs (d_extra (ds i)) /\ query_ok (d_extra (ds i)).
+  (* no page size configured: requests carry strings only *)
+  Hypothesis Hn : (c_n c <= 0)%Z.
+
+  (* how this registry writes a link, and net/url (as modelled) reading it *)
+  Definition render_c (i : nat) (base tgt : url) : str :=
+    u_path tgt ++ c_qm :: enc_pairs (shown (u_query tgt)).
+  Definition resolve_c (base : url) (t : str) : option url :=
+    match resolve_ref (mkS sch host (u_path base) []) t with
+    | ROk u => Some (mkUrl (s_path u) (vsmap (parse_query_lenient (s_query u))))
+    | _ => None
+    end.
+  Definition inv_c (rq : url) : Prop := u_path rq = P0 /\ all_vs (u_query rq) /\ query_ok (u_query rq).
+
+  Lemma ckey_ok : Forall byte_ok (ckey cu).
+  Proof. destruct cu; [apply k_last_ok|apply Hcub]. Qed.
+
+  Lemma cenc_ok x : Forall byte_ok x -> Forall byte_ok (cenc cu x).
+  Proof. intro H. destruct cu; [exact H|]. simpl. apply Forall_app. split; [apply Hcub|exact H]. Qed.
+
+  Lemma target_inv i base x :
+    inv_c base -> In x (map fst L) ->
+    let tgt := link_target ds cu (fun _ p => p) i base x in
+    u_path tgt = P0 /\ all_vs (u_query tgt) /\ query_ok (u_query tgt).
+  Proof.
+    intros (Ep & Av & Qo) Hx. unfold link_target, link_url. cbn [u_path u_query]. split; [exact Ep|].
+    destruct (Hextra_vs i) as [Ev Eo]. split.
+    - constructor; [now eexists|]. apply Forall_app. split; [exact Ev|]. now do 2 apply Forall_qdel.
+    - constructor; [split; [apply ckey_ok|apply cenc_ok; now apply Hnames]|].
+      apply Forall_app. split; [exact Eo|]. now do 2 apply Forall_qdel.
+  Qed.
+
+  Lemma mk_request_plain u : mk_request c u [] = mkUrl (u_path u) (u_query u).
+  Proof.
+    unfold mk_request. assert (E : (0 <? c_n c)%Z = false) by (apply Z.ltb_ge; exact Hn).
+    rewrite E. cbn [is_empty negb]. now rewrite andb_false_r.
+  Qed.
+
+  Theorem concrete_exactly_once last0 fuel :
+    c_kind c <> KReferrers ->
+    NoDup (map fst L) -> (forall it, In it L -> fst it <> []) ->
+    Forall byte_ok last0 ->
+    (forall i, (Z.of_N (d_doc_len (ds i)) <= eff_limit (c_limit c))%Z) ->
+    (length (after last0 L) < fuel)%nat ->
+    let t := loop (reg_serve (c_kind c) cu (fun _ p => p) vis L cap ds render_c trailer) resolve_c (fun _ => false) c
+                  fuel 0 0 (mkUrl P0 []) last0 in
+    t_out t = Done /\
+    concat (t_pages t) = filter vis (after last0 L) /\
+    (length (t_reqs t) <= S (length (after last0 L)))%nat.
+  Proof.
+    intros K Hnd Hne Hl Hfit Hfuel.
+    apply (listing_exactly_once_inv L cap ds render_c trailer resolve_c c cu (fun _ p => p) vis inv_c P0 last0 fuel);
+      auto.
+    - (* no '>' in the link text *)
+      intros i base x Hi Hx. destruct (target_inv i base x Hi Hx) as (Ep & Av & Qo).
+      unfold render_c. rewrite Ep. rewrite contains_app.
+      rewrite (contains_forallb c_gt path_char P0 eq_refl HP0c). cbn [contains existsb].
+      change (c_qm =? c_gt) with false. cbn [orb].
+      apply (contains_forallb c_gt enc_char); [reflexivity|]. apply enc_pairs_enc_char. now apply shown_ok.
+    - (* net/url reads the link back *)
+      intros i base x Hi Hx. destruct (target_inv i base x Hi Hx) as (Ep & Av & Qo).
+      destruct Hi as (Eb & _ & _).
+      unfold resolve_c, render_c. rewrite Ep.
+      pose proof (shown_ok _ Qo) as KV.
+      rewrite (resolve_abs_path (mkS sch host (u_path base) []) P0 segs0 (enc_pairs (shown (u_query (link_target ds cu (fun _ p => p) i base x))))); auto.
+      + cbn [s_path s_query]. rewrite (parse_enc_pairs _ KV). rewrite (vsmap_shown _ Av).
+        f_equal. destruct (link_target ds cu (fun _ p => p) i base x) as [p q]. cbn [u_path u_query] in *. now subst p.
+      + now apply enc_pairs_query_char.
+      + unfold link_ok. rewrite forallb_app. rewrite HP0p. cbn [forallb]. change (printable c_qm) with true. cbn [andb].
+        apply (forallb_impl query_char printable _ query_char_printable). now apply enc_pairs_query_char.
+    - (* the invariant is kept *)
+      intros i base x Hi Hx. rewrite mk_request_plain. unfold inv_c. cbn [u_path u_query].
+      exact (target_inv i base x Hi Hx).
+    - (* and holds at the start *)
+      unfold mk_request. assert (E : (0 <? c_n c)%Z = false) by (apply Z.ltb_ge; exact Hn). rewrite E.
+      cbn [u_path u_query]. split; [reflexivity|].
+      destruct (sends_last (c_kind c) && negb (is_empty last0)).
+      + unfold qset. cbn [qdel]. split.
+        * constructor; [now eexists|constructor].
+        * constructor; [split; [apply k_last_ok|exact Hl]|constructor].
+      + split; constructor.
+  Qed.
+End Concrete.
